@@ -6,7 +6,7 @@ import shutil
 from concurrent.futures import ThreadPoolExecutor
 
 import lib
-from lib import esc_list, unesc_list
+from lib import esc, esc_list, unesc_list
 
 THEOREMS = ['C08.C08_missing_iff', 'C08.C08_closed_preserved', 'C08.C08_ignore_can_break', 'C08.C08_stack_union']
 HDR = re.compile(r'^(\s*)(profile|hat)\s+(\S+)|^(\s*)\^(\S+)')
@@ -169,6 +169,27 @@ def run(ctx):
             if ctx.known_finding(kid, '%s names %s, which is not a profile of the source tree' % (fn, n)):
                 continue
             ctx.violation('%s names %s, which is not a profile of the source tree' % (fn, n), {'file': fn, 'name': n})
+    # the names the code itself reads from each flags manifest (prebuild.Flags.Read) are the names an independent reading finds:
+    # a name the reader cuts or joins would make the build flag another profile, or none, without any error
+    fdir = os.path.join(lib.REPO, 'dists', 'flags')
+    mans = sorted(os.path.basename(p)[:-6] for p in glob.glob(os.path.join(fdir, '*.flags')))
+    rd = ctx.run_go('flagsread', ['%s\t%s' % (esc(fdir), esc(m)) for m in mans])
+    nread = 0
+    for m, o in zip(mans, rd):
+        own = {}
+        for l in open(os.path.join(fdir, m + '.flags')):
+            l = l.split('#')[0].strip()
+            if l:
+                parts = l.split()
+                own[parts[0]] = parts[1] if len(parts) > 1 else ''
+        code = dict(kv.split('=', 1) for kv in unesc_list(o[3:])) if o.startswith('ok\t') and len(o) > 3 else {}
+        nread += len(code)
+        if not o.startswith('ok') or code != own:
+            diff = sorted(k for k in set(code) | set(own) if code.get(k) != own.get(k))
+            ctx.violation('dists/flags/%s.flags: the build reads %s where the file says %s' % (
+                m, [(k, code.get(k)) for k in diff[:3]], [(k, own.get(k)) for k in diff[:3]]),
+                {'manifest': m, 'suite': 'flagsread', 'op': '%s\t%s' % (esc(fdir), esc(m)), 'differing': diff[:20]})
+    ctx.cov['search']['manifest_reader'] = {'manifests': len(mans), 'entries_read': nread}
     ctx.count_distinct(['%s:%s' % k for k in dangling] + [c.name() for c in cfgs])
     ctx.cov['search']['closure'] = {'configs': len(cfgs), 'references_checked': nrefs, 'dangling_pairs': len(dangling), 'manifest_names': len(named)}
     ctx.cov['evaluations'] += len(named)
